@@ -6,7 +6,7 @@ PLAN_ENTRY = {'stages': [
     {'name': 'circles',
      'mc': [{'module': 'MC_C11', 'cfg': {'quick': 'MC_C11_quick.cfg', 'thorough': 'MC_C11_thorough.cfg'}, 'workers': 4,
              'timeout': {'quick': 300, 'thorough': 1800}}],
-     'gens': ['gen_c11_random'], 'trace': 'Trace_Circles',
+     'gens': ['gen_c11_random', 'gen_c11_near_equal'], 'trace': 'Trace_Circles',
      'judge_timeout': {'quick': 600, 'thorough': 3600}}],
     'assumptions': [
         'TLC evaluates the L1 operators of Circles.tla correctly (their mutual consistency and their acceptance of the exact '
@@ -44,7 +44,7 @@ CLAIM = {
                  'engeom, TLC trace validation of recorded observations',
 }
 
-SCALES = (0, 0, 0, -10, -3, 4, 7, 10)
+SCALES = (0, 0, 0, -10, -3, 4, 7, 10, -20)
 
 
 def _pyth(maxh):
@@ -195,4 +195,20 @@ def gen_c11_random(rnd, tier):
         out.append(_arc3(rnd))
         if _ % 2 == 0:
             out.append(_curve(rnd))
+    return out
+
+
+def gen_c11_near_equal(rnd, tier):
+    """outer tangents of two separate circles whose radii are millions of units and differ by one to three units
+    (relative difference below 1e-6, absolute difference far above any rounding): the general construction applies"""
+    out = []
+    for _ in range(60 if tier == 'quick' else 1000):
+        r = rnd.randint(1200000, 4000000)
+        e = rnd.choice((1, 2, 3, -1, -2))
+        x0, y0 = rnd.randint(-1000000, 1000000), rnd.randint(-1000000, 1000000)
+        k = rnd.randint(3, 5)
+        a, b = rnd.choice(((1, 0), (0, 1), (3, 4), (-4, 3), (5, -12), (-1, 0), (-8, -15)))
+        h = {(1, 0): 1, (0, 1): 1, (3, 4): 5, (-4, 3): 5, (5, -12): 13, (-1, 0): 1, (-8, -15): 17}[(a, b)]
+        dx, dy = k * r * a // h, k * r * b // h
+        out.append({'m': 'circles', 'op': 'ccnear', 'q': 1, 'sc': rnd.choice((0, 0, -10, -20)), 'c0': [x0, y0, r], 'c1': [x0 + dx, y0 + dy, r + e]})
     return out
